@@ -173,7 +173,7 @@ def run_group(group, tier="quick", seed=0):
             env["CARGO_NET_OFFLINE"] = "true"
             env["CARGO_TARGET_DIR"] = os.path.join(scratch, "target%d" % bi)
             try:
-                p = subprocess.run(cmd, cwd=cdir, stdout=subprocess.PIPE, stderr=subprocess.STDOUT, text=True,
+                p = subprocess.run(cmd, cwd=cdir, stdin=subprocess.DEVNULL, stdout=subprocess.PIPE, stderr=subprocess.STDOUT, text=True,
                                    timeout=timeout, env=env)
                 return p.stdout, p.returncode
             except subprocess.TimeoutExpired as e:
